@@ -224,6 +224,30 @@ func scenC03(c *ctx) {
 			break
 		}
 	}
+	// back-to-back calls on the same secret and counter that differ in ONE parameter (window, digits, hash):
+	// each call is judged on its own parameters, whatever the previous call was
+	for i := 0; i < c.n(20, 300); i++ {
+		key := c.someKey()
+		ctr := c.someCounter()>>2 + 30
+		d0 := okDigits[c.rng.Intn(len(okDigits))]
+		a0 := uint8(c.rng.Intn(3))
+		skews := []uint64{3, 0, 10, 1, 0, 2, 5, 0}
+		for k, s := range skews {
+			dist := []int{1, 3, 1, 2, 0, -2, 4, -1}[k]
+			d, a := d0, a0
+			if k%3 == 2 {
+				d = okDigits[c.rng.Intn(len(okDigits))]
+			}
+			if k%4 == 3 {
+				a = uint8(c.rng.Intn(3))
+			}
+			code := refHOTP(key, ctr+uint64(int64(dist)), int(d0), int(a0))
+			c.rec.Emit(doValidateHOTP(fmt.Sprintf("C03/sib/%d/%d", i, k), b32(key), code, ctr, P{Digits: d, Alg: a, Skew: s}))
+		}
+		for k := 0; k < 4; k++ {
+			c.rec.Emit(doValidateHOTP(fmt.Sprintf("C03/sibnil/%d/%d", i, k), b32(key), refHOTP(key, ctr+uint64(k), 6, 0), ctr, P{Nil: k%2 == 0, Digits: 6, Skew: 0}))
+		}
+	}
 	// refused windows: even the exact code of the counter itself
 	for _, s := range skewsRefused {
 		for i := 0; i < 3; i++ {
@@ -378,6 +402,34 @@ func scenC04(c *ctx) {
 			}
 			c.rec.Emit(doValidateTOTP(fmt.Sprintf("C04/lead/%d/exact", i), b32(key), code, t, P{Digits: d, Alg: a, Skew: s, Period: 30}))
 			break
+		}
+	}
+	// back-to-back calls on the same secret and instant that differ in ONE parameter (skew, period, digits, hash)
+	for i := 0; i < c.n(20, 300); i++ {
+		key := c.someKey()
+		step := uint64(c.rng.Int63n(1<<30)) + 50
+		d0 := okDigits[c.rng.Intn(len(okDigits))]
+		a0 := uint8(c.rng.Intn(3))
+		t := time.Unix(int64(step*30)+int64(c.rng.Intn(30)), 0)
+		skews := []uint64{3, 0, 10, 1, 0, 2, 5, 0}
+		for k, s := range skews {
+			dist := []int{1, 3, 1, 2, 0, -2, 4, -1}[k]
+			d, a := d0, a0
+			per := uint64(30)
+			if k%3 == 2 {
+				d = okDigits[c.rng.Intn(len(okDigits))]
+			}
+			if k%4 == 3 {
+				a = uint8(c.rng.Intn(3))
+			}
+			if k == 5 {
+				per = 0
+			}
+			code := refHOTP(key, step+uint64(int64(dist)), int(d0), int(a0))
+			c.rec.Emit(doValidateTOTP(fmt.Sprintf("C04/sib/%d/%d", i, k), b32(key), code, t, P{Digits: d, Alg: a, Skew: s, Period: per}))
+		}
+		for k := 0; k < 4; k++ {
+			c.rec.Emit(doValidateTOTP(fmt.Sprintf("C04/sibnil/%d/%d", i, k), b32(key), refHOTP(key, step+uint64(k), 6, 0), t, P{Nil: k%2 == 0, Digits: 6, Skew: 0, Period: 30}))
 		}
 	}
 	// refused skews: every submitted string, including the current step's own code, is refused
